@@ -37,7 +37,8 @@ def directed(rng: random.Random) -> dict:
     cval = rng.choice([0, 1, 2, 5, -1, -3])
     body.append({"k": "assign", "n": "cnA", "e": E(cval) if cval >= 0 else E("-", -cval)})
     kind = rng.choice(["if_const", "if_undef", "for_bounds", "if_loopvar", "nested", "macro_if", "macro_for", "for_label", "else_chain",
-                       "if_defines", "if_defines_label", "macro_if_defines", "for_shadow", "for_after"])
+                       "if_defines", "if_defines_label", "macro_if_defines", "for_shadow", "for_after", "macro_defined_in_if",
+                       "macro_defined_in_empty_loop", "loop_state_per_iteration"])
     db = lambda *es: {"k": "data", "d": "db", "es": [e if isinstance(e, list) else E(e) for e in es]}  # noqa: E731
     if kind == "if_const":
         st = {"k": "if", "c": rng.choice([E("cnA"), E("cnA", "&", 1), E("cnA", "+", 1), E("cnA", "-", cval)]), "t": [db(1)], "e": [db(2)] if rng.random() < 0.6 else None}
@@ -92,6 +93,25 @@ def directed(rng: random.Random) -> dict:
                  {"k": "macro", "n": "macR", "ps": ["itP"], "b": [{"k": "for", "v": "itP", "a": E(1), "b": E(3), "body": [db(E("itP"))]}, db(E("itP"))]},
                  {"k": "call", "n": "macR", "as": [E(0x77)]},
                  {"k": "for", "v": "itQ", "a": E(0), "b": E("itS", "&", 3), "body": [db(0x55)]}]
+    elif kind == "macro_defined_in_if":
+        other = {"k": "macro", "n": "trace", "ps": ["pv"], "b": [db(0xEA)]}
+        real = {"k": "macro", "n": "trace", "ps": ["pv"], "b": [db(E("pv")), db(0x11)]}
+        cond = rng.choice([E("cnA"), E(2, "-", 5), E("nowhere1"), E(0)])
+        pre = [other] if rng.random() < 0.5 else []
+        st = {"k": "if", "c": cond, "t": [real], "e": [other] if (not pre or rng.random() < 0.5) else None}
+        if not pre and st["e"] is None:
+            st["e"] = [other]
+        body += pre + [st, {"k": "call", "n": "trace", "as": [E(0x42)]}, db(0xEE)]
+    elif kind == "macro_defined_in_empty_loop":
+        body += [{"k": "macro", "n": "trace", "ps": ["pv"], "b": [db(E("pv"))]},
+                 {"k": "macro", "n": "wrapm", "ps": ["pf", "pl"], "b": [{"k": "for", "v": "itM", "a": E("pf"), "b": E("pl"), "body": [
+                     {"k": "macro", "n": "trace", "ps": ["pv"], "b": [db(0xEA), db(E("pv"))]}]}]},
+                 {"k": "call", "n": "wrapm", "as": [E(1), E(rng.choice([1, 1, 2]))]}, {"k": "call", "n": "trace", "as": [E(0x42)]}]
+    elif kind == "loop_state_per_iteration":
+        body += [{"k": "for", "v": "itK", "a": E(0), "b": E(4), "body": [
+            {"k": "if", "c": E("itK", "&", 1), "t": [db(E(0xA0, "+", "itK"))], "e": [db(E("itK"))]},
+            {"k": "assign", "n": "sq", "e": E("itK", "*", "itK")}, db(E("sq")),
+            {"k": "for", "v": "itJ", "a": E(0), "b": E("itK"), "body": [db(E("itJ", "+", 0x40))]}]}]
     elif kind == "for_after":
         body += [{"k": "for", "v": "itJ", "a": E(1), "b": E(3), "body": [db(E("itJ"))]},
                  {"k": "if", "c": E("itJ"), "t": [db(0x01)], "e": [db(0x02)]}]
